@@ -182,6 +182,10 @@ class CombinedDataHandler:
             .copy()
         )
         unexpected_units["unit_category"] = "unexpected"
+        # a count that did not arrive counts as no votes (a unit that the 'drop' policy removed because of a missing
+        # count comes back here): an undefined count would make every aggregate it is added into undefined as well
+        results_columns = [col for col in unexpected_units.columns if col.startswith("results_")]
+        unexpected_units[results_columns] = unexpected_units[results_columns].fillna(0)
 
         # since we were not expecting them, we have don't have their county or district
         # from preprocessed data. so we have to add that back in.
